@@ -21,7 +21,9 @@ PROP = {
             "pattern begin-changes-commit-force-end / pre-filled), payload sizes: empty, 1..64 (every residue mod 8), "
             "1000..8000, boundary-targeted (record ends -16..+88 bytes from the end of the target block, every "
             "residue), 20 000..max, and the limit sizes around max_record_size and around what a fresh block takes; "
-            "read-ahead 1..6 (rarely 0); each ends with read / force / read / reopen / read; (c) record images "
+            "read-ahead 1..6 (rarely 0); each ends with read / force / read / reopen / read / image, where `image` is the file itself read by the "
+            "harness block by block (block number, used bytes, first/last LSN, total_blocks, digest of the used data area) against "
+            "the model's blocks and `encodeRecs`; (c) record images "
             "(`rec`): every pair of payload lengths 0..8, random lengths < 70, u16 limits; all from VERIF_SEED, executed "
             "on the real WriteAheadLog on a file (O_DIRECT, real fsync). Non-trivial = a sequence that crosses at least one "
             "block boundary and forces at least twice, at least once after the crossing; every `rec` case. Distinct = distinct case line.",
@@ -44,12 +46,13 @@ TEXT = {
             "rotation, perform_flush offsets, header bookkeeping, open, WalReader preload/reload) equals the output of the "
             "abstract specification (list of accepted records + forced prefix); corollaries: a read returns exactly the forced "
             "prefix, everything after a force or reopen, LSNs strictly increasing, nothing invented, over-large push rejected with "
-            "state unchanged, accepted records fit the u16/u32 header fields; byte-level record image round-trip. Model tied to the code by ~6 500 sequences "
-            "per quick run on the real log and by constants evaluated from the code. Five defects of the shipped log found and fixed.",
+            "state unchanged, accepted records fit the u16/u32 header fields; byte-level round-trip of the record image and of a block's data area. "
+            "Model tied to the code by ~6 500 sequences per quick run on the real log (records read back, LSNs, errors, and the bytes of the file) "
+            "and by constants evaluated from the code. Five defects of the shipped log found and fixed.",
     "design_ref": "DESIGN.md §5 C17",
     "note": "Trusted: Lean kernel + propext/Quot.sound/Classical.choice; the hand-written model of io/wal.rs (validated differentially: "
             "0 differences on the fixed code, and 0 differences between the shipped code and the model with all five defect flags on); "
-            "a block is modelled as header fields + record list (byte image proved only per record); crashes between the writes of one force "
-            "are not modelled here.",
+            "a block is modelled as header fields + record list (byte image proved for records and data areas, block/file headers only compared); "
+            "crashes between the writes of one force are not modelled here, so the order of the writes inside a force is not observed (C01/C08).",
     "technique": "Lean 4 refinement proof (invariant by induction over operations) + record codec round-trip + differential correspondence with the real WriteAheadLog",
 }
